@@ -856,6 +856,33 @@ func cyclic(fn *ssa.Function) map[*ssa.BasicBlock]bool {
 	return res
 }
 
+// cyclicExcluding returns the blocks on cycles that avoid block ex.
+func cyclicExcluding(fn *ssa.Function, ex *ssa.BasicBlock) map[*ssa.BasicBlock]bool {
+	res := map[*ssa.BasicBlock]bool{}
+	for _, b := range fn.Blocks {
+		if b == ex {
+			continue
+		}
+		seen := map[*ssa.BasicBlock]bool{ex: true}
+		var st []*ssa.BasicBlock
+		st = append(st, b.Succs...)
+		for len(st) > 0 {
+			x := st[len(st)-1]
+			st = st[:len(st)-1]
+			if x == b {
+				res[b] = true
+				break
+			}
+			if seen[x] {
+				continue
+			}
+			seen[x] = true
+			st = append(st, x.Succs...)
+		}
+	}
+	return res
+}
+
 // HasLoops reports whether the function's CFG has a cycle.
 func HasLoops(fn *ssa.Function) bool { return len(cyclic(fn)) > 0 }
 
@@ -899,6 +926,11 @@ func EnumPathsTo(fn *ssa.Function, from *ssa.BasicBlock, target ssa.Instruction,
 		}
 	}
 	cyc := cyclic(fn)
+	if stop != nil && from == stop && target == nil {
+		// single-iteration mode: the path is one contiguous execution segment from the loop header back to
+		// it; only cycles that do not pass through the header (inner loops) can hide stores
+		cyc = cyclicExcluding(fn, stop)
+	}
 	loopy := map[string]bool{}
 	if len(cyc) > 0 {
 		// addresses stored inside a cycle are not tracked across blocks
